@@ -13,45 +13,49 @@ def EntInv (h : List (Rec κ ν)) (c : Cache κ ν) : Prop :=
   ∀ k e, find? k c.entries = some e →
     ∃ t0 ttl, lastStore k h = some (e.val, t0, ttl) ∧ e.expiry = t0 + ttl
 
-theorem lastStore_set_ok (k k' : κ) (v : ν) (ttl : Int) (sz : Nat) (t : Int) (h : List (Rec κ ν)) :
-    lastStore k' (⟨t, .set k v ttl sz, .setRes .ok⟩ :: h) =
+theorem lastStore_set_ok (k k' : κ) (v : ν) (ttl : Int) (sz : Nat) (t m : Int) (h : List (Rec κ ν)) :
+    lastStore k' (⟨t, m, .set k v ttl sz, .setRes .ok⟩ :: h) =
       if k = k' then some (v, t, ttl) else lastStore k' h := by
   simp [lastStore]
 
-theorem lastStore_set_full (k k' : κ) (v : ν) (ttl : Int) (sz : Nat) (t : Int) (h : List (Rec κ ν)) :
-    lastStore k' (⟨t, .set k v ttl sz, .setRes .full⟩ :: h) = lastStore k' h := by
+theorem lastStore_set_full (k k' : κ) (v : ν) (ttl : Int) (sz : Nat) (t m : Int) (h : List (Rec κ ν)) :
+    lastStore k' (⟨t, m, .set k v ttl sz, .setRes .full⟩ :: h) = lastStore k' h := by
   simp [lastStore]
 
-theorem lastStore_del (k k' : κ) (t : Int) (o : Out ν) (h : List (Rec κ ν)) :
-    lastStore k' (⟨t, .del k, o⟩ :: h) = if k = k' then none else lastStore k' h := by
+theorem lastStore_del (k k' : κ) (t m : Int) (o : Out ν) (h : List (Rec κ ν)) :
+    lastStore k' (⟨t, m, .del k, o⟩ :: h) = if k = k' then none else lastStore k' h := by
   simp [lastStore]
 
-theorem lastStore_get (k k' : κ) (t : Int) (o : Out ν) (h : List (Rec κ ν)) :
-    lastStore k' (⟨t, .get k, o⟩ :: h) = lastStore k' h := by
+theorem lastStore_get (k k' : κ) (t m : Int) (o : Out ν) (h : List (Rec κ ν)) :
+    lastStore k' (⟨t, m, .get k, o⟩ :: h) = lastStore k' h := by
   simp [lastStore]
 
-theorem lastStore_has (k k' : κ) (t : Int) (o : Out ν) (h : List (Rec κ ν)) :
-    lastStore k' (⟨t, .has k, o⟩ :: h) = lastStore k' h := by
+theorem lastStore_has (k k' : κ) (t m : Int) (o : Out ν) (h : List (Rec κ ν)) :
+    lastStore k' (⟨t, m, .has k, o⟩ :: h) = lastStore k' h := by
   simp [lastStore]
 
-theorem lastStore_fire (i : Nat) (k' : κ) (t : Int) (o : Out ν) (h : List (Rec κ ν)) :
-    lastStore k' (⟨t, .fire i, o⟩ :: h) = lastStore k' h := by
+theorem lastStore_fire (i : Nat) (k' : κ) (t m : Int) (o : Out ν) (h : List (Rec κ ν)) :
+    lastStore k' (⟨t, m, .fire i, o⟩ :: h) = lastStore k' h := by
   simp [lastStore]
 
-theorem lastStore_skip (d : Nat) (k' : κ) (t : Int) (o : Out ν) (h : List (Rec κ ν)) :
-    lastStore k' (⟨t, .skip d, o⟩ :: h) = lastStore k' h := by
+theorem lastStore_skip (d : Nat) (k' : κ) (t m : Int) (o : Out ν) (h : List (Rec κ ν)) :
+    lastStore k' (⟨t, m, .skip d, o⟩ :: h) = lastStore k' h := by
   simp [lastStore]
 
-theorem lastStore_adv (d : Nat) (k' : κ) (t : Int) (o : Out ν) (h : List (Rec κ ν)) :
-    lastStore k' (⟨t, .adv d, o⟩ :: h) = lastStore k' h := by
+theorem lastStore_adv (d : Nat) (k' : κ) (t m : Int) (o : Out ν) (h : List (Rec κ ν)) :
+    lastStore k' (⟨t, m, .adv d, o⟩ :: h) = lastStore k' h := by
   simp [lastStore]
 
-theorem lastStore_probe (k' : κ) (t : Int) (o : Out ν) (h : List (Rec κ ν)) :
-    lastStore k' (⟨t, .probe, o⟩ :: h) = lastStore k' h := by
+theorem lastStore_wstep (d : Int) (k' : κ) (t m : Int) (o : Out ν) (h : List (Rec κ ν)) :
+    lastStore k' (⟨t, m, .wstep d, o⟩ :: h) = lastStore k' h := by
+  simp [lastStore]
+
+theorem lastStore_probe (k' : κ) (t m : Int) (o : Out ν) (h : List (Rec κ ν)) :
+    lastStore k' (⟨t, m, .probe, o⟩ :: h) = lastStore k' h := by
   simp [lastStore]
 
 theorem step_entInv (c : Cache κ ν) (h : List (Rec κ ν)) (ev : Ev κ ν) (hinv : EntInv h c) :
-    EntInv (⟨c.now, ev, (step c ev).2⟩ :: h) (step c ev).1 := by
+    EntInv (⟨c.now, c.mono, ev, (step c ev).2⟩ :: h) (step c ev).1 := by
   intro k' e hf
   cases ev with
   | set k v ttl sz =>
@@ -78,11 +82,184 @@ theorem step_entInv (c : Cache κ ν) (h : List (Rec κ ν)) (ev : Ev κ ν) (hi
   | fire i => simp only [step] at hf ⊢; rw [lastStore_fire]; exact hinv k' e (find?_fire hf)
   | skip d => simp only [step, skip] at hf ⊢; rw [lastStore_skip]; exact hinv k' e hf
   | adv d => simp only [step] at hf ⊢; rw [lastStore_adv]; exact hinv k' e (find?_adv hf)
+  | wstep d => simp only [step, wstep] at hf ⊢; rw [lastStore_wstep]; exact hinv k' e hf
   | probe => simp only [step] at hf ⊢; rw [lastStore_probe]; exact hinv k' e hf
 
+/-! ### timers on time: every stored entry still has its own (not yet due) expiry timer pending -/
+
+theorem storeDue_set_ok (k k' : κ) (v : ν) (ttl : Int) (sz : Nat) (t m : Int) (h : List (Rec κ ν)) :
+    storeDue k' (⟨t, m, .set k v ttl sz, .setRes .ok⟩ :: h) = if k = k' then some (m + ttl) else storeDue k' h := by
+  simp [storeDue]
+
+theorem storeDue_set_full (k k' : κ) (v : ν) (ttl : Int) (sz : Nat) (t m : Int) (h : List (Rec κ ν)) :
+    storeDue k' (⟨t, m, .set k v ttl sz, .setRes .full⟩ :: h) = storeDue k' h := by
+  simp [storeDue]
+
+theorem storeDue_del (k k' : κ) (t m : Int) (o : Out ν) (h : List (Rec κ ν)) :
+    storeDue k' (⟨t, m, .del k, o⟩ :: h) = if k = k' then none else storeDue k' h := by
+  simp [storeDue]
+
+theorem mem_insertSleeper_self (s : Sleeper κ) (l : List (Sleeper κ)) : s ∈ insertSleeper s l := by
+  induction l with
+  | nil => simp [insertSleeper]
+  | cons p rest ih =>
+    simp only [insertSleeper]
+    split <;> simp [ih]
+
+theorem mem_insertSleeper_of_mem {s x : Sleeper κ} {l : List (Sleeper κ)} (h : x ∈ l) : x ∈ insertSleeper s l := by
+  induction l with
+  | nil => cases h
+  | cons p rest ih =>
+    simp only [insertSleeper]
+    rcases List.mem_cons.mp h with h1 | h1
+    · split <;> simp [h1]
+    · split
+      · exact List.mem_cons_of_mem _ (ih h1)
+      · exact List.mem_cons_of_mem _ (List.mem_cons_of_mem _ h1)
+
+theorem mem_insertSleeper_cases {s x : Sleeper κ} {l : List (Sleeper κ)} (h : x ∈ insertSleeper s l) :
+    x = s ∨ x ∈ l := by
+  induction l with
+  | nil => simp [insertSleeper] at h; exact Or.inl h
+  | cons p rest ih =>
+    simp only [insertSleeper] at h
+    by_cases hp : p.due ≤ s.due
+    · simp only [hp, if_true, List.mem_cons] at h
+      rcases h with h | h
+      · exact Or.inr (by simp [h])
+      · rcases ih h with h | h
+        · exact Or.inl h
+        · exact Or.inr (List.mem_cons_of_mem _ h)
+    · simp only [hp, if_false, List.mem_cons] at h
+      rcases h with h | h | h
+      · exact Or.inl h
+      · exact Or.inr (by simp [h])
+      · exact Or.inr (List.mem_cons_of_mem _ h)
+
+theorem find?_clearAll_notin {c : Cache κ ν} {l : List (Sleeper κ)} {k : κ} {e : Entry ν}
+    (h : find? k (clearAll c l).entries = some e) : ∀ s, s ∈ l → s.key ≠ k := by
+  induction l generalizing c with
+  | nil => intro s hs; cases hs
+  | cons s0 rest ih =>
+    intro s hs
+    rcases List.mem_cons.mp hs with h1 | h1
+    · have h2 := find?_clearAll (c := clearKey c s0.key) (l := rest) h
+      have := (find?_erase_some h2).1
+      rw [h1]; exact fun x => this x.symm
+    · exact ih (c := clearKey c s0.key) h s h1
+
+/-- While no `skip` happened: no pending timer is due, and every stored entry has its own timer pending,
+    due at the elapsed deadline `storeDue` of the last store of its key. -/
+def OnTime (h : List (Rec κ ν)) (c : Cache κ ν) : Prop :=
+  timersOnTime h = true →
+    (∀ s, s ∈ c.pending → c.mono < s.due) ∧
+    (∀ k e, find? k c.entries = some e → ∃ d, storeDue k h = some d ∧ ∃ s, s ∈ c.pending ∧ s.key = k ∧ s.due = d)
+
+theorem onTime_init (cfg : Cfg) : OnTime ([] : List (Rec κ ν)) (cfg.init : Cache κ ν) := by
+  intro _
+  constructor
+  · intro s hs; simp [Cfg.init, Cache.init] at hs
+  · intro k e hf; simp [Cfg.init, Cache.init, find?] at hf
+
+theorem step_onTime (c : Cache κ ν) (h : List (Rec κ ν)) (ev : Ev κ ν) (hinv : OnTime h c) :
+    OnTime (⟨c.now, c.mono, ev, (step c ev).2⟩ :: h) (step c ev).1 := by
+  intro hot
+  have hot0 : timersOnTime h = true := by
+    simp only [timersOnTime, Bool.and_eq_true] at hot; exact hot.2
+  obtain ⟨hdue, hown⟩ := hinv hot0
+  cases ev with
+  | set k v ttl sz =>
+    simp only [step]
+    by_cases hfull : c.sizeOn = true ∧ c.tracked + (sz : Nat) > c.max
+    · rw [set_eq_full k v ttl sz hfull]
+      refine ⟨hdue, ?_⟩
+      intro k' e hf
+      simp only [storeDue_set_full]; exact hown k' e hf
+    · have hok : ∀ x, x = SetRes.ok → True := fun _ _ => trivial
+      by_cases httl : ttl > 0
+      · rw [set_eq_pos k v ttl sz hfull httl]
+        constructor
+        · intro s hs
+          rcases mem_insertSleeper_cases hs with h1 | h1
+          · rw [h1]; show c.mono < c.mono + ttl; omega
+          · exact hdue s h1
+        · intro k' e hf
+          simp only [storeDue_set_ok]
+          by_cases hk : k = k'
+          · subst hk
+            simp only [if_true]
+            exact ⟨c.mono + ttl, rfl, ⟨c.mono + ttl, k⟩, mem_insertSleeper_self _ _, rfl, rfl⟩
+          · simp only [hk, if_false]
+            simp only [find?, hk, if_false] at hf
+            obtain ⟨d, hd, s, hs, hsk, hsd⟩ := hown k' e (find?_erase_some hf).2
+            exact ⟨d, hd, s, mem_insertSleeper_of_mem hs, hsk, hsd⟩
+      · rw [set_eq_nonpos k v ttl sz hfull httl]
+        refine ⟨hdue, ?_⟩
+        intro k' e hf
+        have hne := find?_erase_some (k := k) (l := c.entries) hf
+        simp only [storeDue_set_ok]
+        have hk : ¬ k = k' := fun x => hne.1 x.symm
+        simp only [hk, if_false]
+        exact hown k' e hne.2
+  | get k =>
+    simp only [step]
+    exact ⟨hdue, fun k' e hf => by simpa [storeDue] using hown k' e hf⟩
+  | has k =>
+    simp only [step]
+    exact ⟨hdue, fun k' e hf => by simpa [storeDue] using hown k' e hf⟩
+  | probe =>
+    simp only [step]
+    exact ⟨hdue, fun k' e hf => by simpa [storeDue] using hown k' e hf⟩
+  | wstep d =>
+    simp only [step, wstep]
+    exact ⟨hdue, fun k' e hf => by simpa [storeDue] using hown k' e hf⟩
+  | skip d => simp [timersOnTime] at hot
+  | del k =>
+    refine ⟨hdue, ?_⟩
+    intro k' e hf
+    have hne := find?_erase_some (k := k) (l := c.entries) hf
+    simp only [storeDue_del]
+    have hk : ¬ k = k' := fun x => hne.1 x.symm
+    simp only [hk, if_false]
+    exact hown k' e hne.2
+  | fire i =>
+    -- no timer is due: nothing fires
+    have hsame : (fire c i).1 = c := by
+      rcases fire_cases c i with h1 | h1 | ⟨s, hs, hd, _⟩
+      · rw [h1]
+      · rw [h1]
+      · have := hdue s (List.mem_of_getElem? hs); omega
+    simp only [step, hsame]
+    exact ⟨hdue, fun k' e hf => by simpa [storeDue] using hown k' e hf⟩
+  | adv d =>
+    simp only [step]
+    constructor
+    · intro s hs
+      simp only [adv, List.mem_filter, Bool.not_eq_true', decide_eq_false_iff_not] at hs
+      show c.mono + (d : Nat) < s.due
+      omega
+    · intro k' e hf
+      have hnot := find?_clearAll_notin (c := c) hf
+      obtain ⟨dd, hd, s, hs, hsk, hsd⟩ := hown k' e (find?_adv hf)
+      refine ⟨dd, by simpa [storeDue] using hd, s, ?_, hsk, hsd⟩
+      simp only [adv, List.mem_filter, Bool.not_eq_true', decide_eq_false_iff_not]
+      refine ⟨hs, ?_⟩
+      intro hle
+      exact hnot s (List.mem_filter.mpr ⟨hs, by simpa using hle⟩) hsk
+
 theorem step_recOk (cfg : Cfg) (c : Cache κ ν) (h : List (Rec κ ν)) (ev : Ev κ ν)
-    (hinv : EntInv h c) (hs : SizeInv c) (hc : c.sizeOn = cfg.sizeOn ∧ c.max = cfg.max) :
-    recOk cfg ⟨c.now, ev, (step c ev).2⟩ h = true := by
+    (hinv : EntInv h c) (hs : SizeInv c) (hc : c.sizeOn = cfg.sizeOn ∧ c.max = cfg.max) (hot : OnTime h c) :
+    recOk cfg ⟨c.now, c.mono, ev, (step c ev).2⟩ h = true := by
+  have helapsed : ∀ k e, find? k c.entries = some e → elapsedFresh k c.mono h = true := by
+    intro k e hf
+    simp only [elapsedFresh, Bool.or_eq_true, Bool.not_eq_true']
+    cases hx : timersOnTime h with
+    | false => exact Or.inl rfl
+    | true =>
+      obtain ⟨hdue, hown⟩ := hot hx
+      obtain ⟨d, hd, s, hs, _, hsd⟩ := hown k e hf
+      have := hdue s hs
+      right; simp only [hd, decide_eq_true_eq]; omega
   cases ev with
   | set k v ttl sz => simp [recOk, step]
   | get k =>
@@ -92,7 +269,7 @@ theorem step_recOk (cfg : Cfg) (c : Cache κ ν) (h : List (Rec κ ν)) (ev : Ev
     | some v =>
       obtain ⟨e, hf, hv, hle⟩ := get_some hg
       obtain ⟨t0, ttl, hl, hx⟩ := hinv k e hf
-      simp only [recOk, hl, freshStore, hv]
+      simp only [recOk, hl, freshStore, hv, helapsed k e hf]
       simp; omega
   | has k =>
     simp only [step]
@@ -101,12 +278,13 @@ theorem step_recOk (cfg : Cfg) (c : Cache κ ν) (h : List (Rec κ ν)) (ev : Ev
     | true =>
       obtain ⟨e, hf, hle⟩ := has_true hg
       obtain ⟨t0, ttl, hl, hx⟩ := hinv k e hf
-      simp only [recOk, hl, freshStore]
+      simp only [recOk, hl, freshStore, helapsed k e hf]
       simp; omega
   | del k => simp [recOk, step]
   | fire i => simp [recOk, step]
   | skip d => simp [recOk, step]
   | adv d => simp [recOk, step]
+  | wstep d => simp [recOk, step]
   | probe =>
     simp only [step, recOk]
     cases hon : cfg.sizeOn with
@@ -118,7 +296,7 @@ theorem step_recOk (cfg : Cfg) (c : Cache κ ν) (h : List (Rec κ ν)) (ev : Ev
       simp; omega
 
 theorem run_holdsRev (cfg : Cfg) (evs : List (Ev κ ν)) (c : Cache κ ν) (h : List (Rec κ ν))
-    (hinv : EntInv h c) (hs : SizeInv c) (hc : c.sizeOn = cfg.sizeOn ∧ c.max = cfg.max)
+    (hinv : EntInv h c) (hs : SizeInv c) (hc : c.sizeOn = cfg.sizeOn ∧ c.max = cfg.max) (hot : OnTime h c)
     (hh : holdsRev cfg h = true) : holdsRev cfg ((run c evs).reverse ++ h) = true := by
   induction evs generalizing c h with
   | nil => simpa [run] using hh
@@ -128,8 +306,9 @@ theorem run_holdsRev (cfg : Cfg) (evs : List (Ev κ ν)) (c : Cache κ ν) (h : 
     · exact step_entInv c h ev hinv
     · exact sizeInv_step ev hs
     · rw [step_sizeOn, step_max]; exact hc
+    · exact step_onTime c h ev hot
     · simp only [holdsRev, Bool.and_eq_true]
-      exact ⟨step_recOk cfg c h ev hinv hs hc, hh⟩
+      exact ⟨step_recOk cfg c h ev hinv hs hc hot, hh⟩
 
 theorem entInv_init (cfg : Cfg) : EntInv ([] : List (Rec κ ν)) (cfg.init : Cache κ ν) := by
   intro k e hf
@@ -194,14 +373,14 @@ theorem run_out_get {c : Cache κ ν} {evs : List (Ev κ ν)} {r : Rec κ ν} (h
 
 theorem lastStore_cons_untouched (k : κ) (r : Rec κ ν) (rest : List (Rec κ ν)) (h : touches k r = false) :
     lastStore k (r :: rest) = lastStore k rest := by
-  obtain ⟨t, ev, out⟩ := r
+  obtain ⟨t, m, ev, out⟩ := r
   cases ev <;> cases out <;> simp_all [touches, lastStore]
   all_goals (rename_i sr; cases sr <;> simp_all)
 
 theorem lastStore_cons_touched (k : κ) (r : Rec κ ν) (rest : List (Rec κ ν)) (h : touches k r = true) :
     (∃ v ttl sz, r.ev = .set k v ttl sz ∧ r.out = .setRes .ok ∧ lastStore k (r :: rest) = some (v, r.t, ttl)) ∨
     (r.ev = .del k ∧ lastStore k (r :: rest) = none) := by
-  obtain ⟨t, ev, out⟩ := r
+  obtain ⟨t, m, ev, out⟩ := r
   cases ev <;> cases out <;> simp_all [touches, lastStore]
   all_goals (rename_i sr; cases sr <;> simp_all)
 
